@@ -173,6 +173,14 @@ def handwritten() -> List[dict]:
     out.append(mk({"N0": 2}, {"S": ([], N), "a": ([], T), "b": ([], T)}, "S",
                   [("S", [], [("S", []), ("S", []), ("b", [])], []), ("S", [], [("a", [])], [])],
                   {"a": 0.2, "b": 0.6}, {"family": "nonlinear-start"}))
+    # a zero-valued nonterminal whose entry appears only after the other values have stopped changing
+    out.append(mk({"N0": 2}, {"S": ([], N), "X": ([], N), "a": ([], T), "b": ([], T)}, "S",
+                  [("S", [], [("X", []), ("a", [])], []), ("X", [], [("b", [])], []), ("X", [], [("S", []), ("X", [])], [])],
+                  {"a": 0.5, "b": 0.0}, {"family": "late-zero-entry"}))
+    out.append(mk({"N0": 2, "N1": 1}, {"S": ([], N), "X": (["N1"], N), "a": (["N1"], T), "b": (["N1"], T), "d": (["N1", "N1"], T)}, "S",
+                  [("S", ["N1"], [("X", [0]), ("a", [0])], []),
+                   ("X", ["N1"], [("b", [0]), ("d", [0, 0])], [0]), ("X", ["N1"], [("S", []), ("X", [0])], [0])],
+                  {"a": [0.35], "b": [0.4], "d": [[0.0]]}, {"family": "late-zero-entry"}))
     return out
 
 
@@ -333,7 +341,7 @@ def grammars(tier: str, rng) -> List[dict]:
             break
     k = 0
     for g in G.enum_recursive(tier, rng):
-        if not g["weights"]:
+        if not g["weights"] or g.get("weights_log"):
             continue
         if add(reweight(g, rng, p_zero=0.08)):
             k += 1
